@@ -247,3 +247,46 @@ pub fn hits_map() -> std::collections::BTreeMap<String, u64> {
 pub fn hit(site: hooks::Site) -> u64 {
     hooks::hit_count(site)
 }
+
+
+/// The four operations on (a, b), called from the destructors of two thread-locals of a short-lived thread: one guard
+/// registered before the thread's first library call, one after, so that whatever per-thread state the library keeps has
+/// already been destroyed for one of them. Returns, per guard, the four results (or failures). Err = the harness plumbing
+/// itself failed (a guard did not report).
+pub fn run_at_thread_exit(a: &MP, b: &MP) -> Result<Vec<Vec<Result<MP, Failure>>>, String> {
+    use std::sync::mpsc;
+    struct Guard {
+        a: MP,
+        b: MP,
+        tx: mpsc::Sender<Vec<Result<MP, Failure>>>,
+    }
+    impl Drop for Guard {
+        fn drop(&mut self) {
+            let out: Vec<Result<MP, Failure>> = OPS.iter().map(|&op| run_op::<f64>(&self.a, &self.b, op, Pairing::MM)).collect();
+            let _ = self.tx.send(out);
+        }
+    }
+    thread_local! {
+        static EARLY: std::cell::RefCell<Option<Guard>> = const { std::cell::RefCell::new(None) };
+        static LATE: std::cell::RefCell<Option<Guard>> = const { std::cell::RefCell::new(None) };
+    }
+    let (tx, rx) = mpsc::channel();
+    let (ta, tb) = (a.clone(), b.clone());
+    let h = std::thread::spawn(move || {
+        EARLY.with(|s| *s.borrow_mut() = Some(Guard { a: ta.clone(), b: tb.clone(), tx: tx.clone() }));
+        let _ = run_op::<f64>(&ta, &tb, Op::Union, Pairing::MM);
+        LATE.with(|s| *s.borrow_mut() = Some(Guard { a: ta, b: tb, tx }));
+    });
+    let _ = h.join();
+    let mut out = Vec::new();
+    while let Ok(r) = rx.recv_timeout(std::time::Duration::from_secs(120)) {
+        out.push(r);
+        if out.len() == 2 {
+            break;
+        }
+    }
+    if out.len() != 2 {
+        return Err(format!("only {} of the 2 thread-exit guards reported", out.len()));
+    }
+    Ok(out)
+}
